@@ -130,6 +130,24 @@ func Ite64(c bool, a, b uint64) uint64 {
 	return b
 }
 
+// HexString formats the value given by little-endian 64-bit limbs as "0x" +
+// exactly n hex digits.
+func HexString(n int, limbs ...uint64) string {
+	s := ""
+	for k := len(limbs) - 1; k >= 0; k-- {
+		s += fmt.Sprintf("%016x", limbs[k])
+	}
+	if len(s) < n {
+		panic(assumeFailed{})
+	}
+	for _, c := range s[:len(s)-n] {
+		if c != '0' {
+			panic(assumeFailed{})
+		}
+	}
+	return "0x" + s[len(s)-n:]
+}
+
 // Run executes a harness natively and reports (failed assertions, panic
 // value, whether an assumption was violated).
 func Run(h func()) (failed []string, panicked any, assumeViolated bool) {
